@@ -198,7 +198,7 @@ def build_network(case):
     G = nx.Graph()
     for v, row in case["jd"]:
         G.add_node(v)
-        G.nodes[v][NN.JOINT_DEGREE] = tuple(row)
+        G.nodes[v][NN.JOINT_DEGREE] = list(row) if case.get("jd_type") == "list" else tuple(row)
     for a, b, t, m in case["edges"]:
         G.add_edge(a, b)
         G.edges[a, b][NN.TOPOLOGY] = t
@@ -238,6 +238,8 @@ class MCMCProp(Prop):
             c["limits"] = [rng.randint(1, 12 if tier == "quick" else 60), rng.randint(5, 25)]
         c["grid"] = rng.choice([4, 10, 50])
         c["max_draws"] = 4000 if tier == "quick" else 20000
+        if i % 5 == 1:
+            c["jd_type"] = "list"          # annotations as lists (hand-built / loaded networks) instead of tuples
         return c
 
     def gen_dense(self, rng, i, tier):
@@ -264,7 +266,8 @@ class MCMCProp(Prop):
         from gcmpy.names.network_names import NetworkNames as NN
         from gcmpy.tools.joint_excess_joint_degree_matrices import JointExcessJointDegreeMatrices
         net = build_network(case)
-        before = (list(net.G.nodes(data=True)), snapshot(net.G))
+        import copy
+        before = copy.deepcopy((list(net.G.nodes(data=True)), snapshot(net.G)))     # deep: list annotations may be changed in place
         ejks = {nm: {tuple(k): Ex(v) for k, v in tab} for nm, tab in case["target"]}
         M = JointExcessJointDegreeMatrices({TN.EJKS: ejks, TN.EDGE_NAMES: list(case["names"])})
         params = {TN.NETWORK: net, TN.EJKS: M}
